@@ -18,12 +18,12 @@ type rx struct {
 	kids []*rx
 }
 
-func rSym(s string) *rx       { return &rx{kind: "sym", sym: s} }
-func rSeq(k ...*rx) *rx       { return &rx{kind: "seq", kids: k} }
-func rAlt(k ...*rx) *rx       { return &rx{kind: "alt", kids: k} }
-func rStar(k *rx) *rx         { return &rx{kind: "star", kids: []*rx{k}} }
-func rOpt(k *rx) *rx          { return &rx{kind: "opt", kids: []*rx{k}} }
-func rEps() *rx               { return &rx{kind: "eps"} }
+func rSym(s string) *rx { return &rx{kind: "sym", sym: s} }
+func rSeq(k ...*rx) *rx { return &rx{kind: "seq", kids: k} }
+func rAlt(k ...*rx) *rx { return &rx{kind: "alt", kids: k} }
+func rStar(k *rx) *rx   { return &rx{kind: "star", kids: []*rx{k}} }
+func rOpt(k *rx) *rx    { return &rx{kind: "opt", kids: []*rx{k}} }
+func rEps() *rx         { return &rx{kind: "eps"} }
 
 func (r *rx) String() string {
 	switch r.kind {
@@ -207,7 +207,7 @@ func newNFA() *NFA {
 	return &NFA{eps: map[int][]int{}, trans: map[int]map[string][]int{}, acc: map[int]bool{}}
 }
 
-func (a *NFA) state() int { a.n++; return a.n - 1 }
+func (a *NFA) state() int      { a.n++; return a.n - 1 }
 func (a *NFA) addEps(f, t int) { a.eps[f] = append(a.eps[f], t) }
 func (a *NFA) add(f int, s string, t int) {
 	if a.trans[f] == nil {
